@@ -13,7 +13,7 @@ From Spok Require Import Base Lexer DecodeSpec LexInv LexSteps.
 Theorem C16_tiling : forall s,
   fst (lex s) = FOk /\
   exists front t, snd (lex s) = front ++ [t] /\
-    ((ty t = ERROR /\ exists e, Tiled s e front) \/ (ty t = EOF /\ exists e, Tiled s e (front ++ [t]))).
+    ((ty t = ERROR /\ (exists e, Tiled s e front) /\ err_located s t) \/ (ty t = EOF /\ exists e, Tiled s e (front ++ [t]))).
 Proof. exact lex_tiles. Qed.
 Print Assumptions C16_tiling.
 
